@@ -62,6 +62,7 @@ type Case struct {
 	Blobs      []Blob    `json:"blobs"`
 	SyncOrder  []int     `json:"syncOrder"`           // order in which nodes run their start-up sync
 	Concurrent bool      `json:"concurrent"`          // all nodes sync at once instead
+	RelDirs    bool      `json:"relDirs,omitempty"`   // node directories given relative to the working directory
 	OddDirs    bool      `json:"oddDirs,omitempty"`   // node directories with glob / regexp metacharacters in their names
 	SplitDirs  bool      `json:"splitDirs,omitempty"` // the shard manager's directory differs from the node's root directory
 	Fault      Fault     `json:"fault"`
@@ -119,6 +120,7 @@ func genCase(t *rapid.T) Case {
 	c.Concurrent = rapid.IntRange(0, 3).Draw(t, "concurrent") == 0
 	c.SplitDirs = rapid.IntRange(0, 2).Draw(t, "splitDirs") == 0
 	c.OddDirs = rapid.IntRange(0, 2).Draw(t, "oddDirs") == 0
+	c.RelDirs = rapid.IntRange(0, 2).Draw(t, "relDirs") == 0
 	if rapid.IntRange(0, 2).Draw(t, "fault") == 0 {
 		c.Fault = Fault{Kind: "chunk", Call: rapid.IntRange(1, 4).Draw(t, "fcall"), Chunk: rapid.SampledFrom([]int{-1, 0, 1, 1, 2}).Draw(t, "fchunk")}
 	} else {
@@ -158,6 +160,7 @@ func seq(n int) []int {
 type env struct {
 	dir      string
 	oddDirs  bool
+	relDirs  bool
 	shardSub string // sub-directory of the node root that holds the shard files ("" = the node root)
 	specs    []drive.NodeSpec
 	nodes    []*cluster.ClusterNode
@@ -184,7 +187,7 @@ func (e *env) names(idx []int) []string {
 
 func (e *env) start(idx []int, servers []string) error {
 	for _, k := range idx {
-		n, err := drive.NewClusterNode(e.root(k), e.specs[k], servers, drive.ClusterOpts{MaxShardPointCount: 2, ShardTimeout: 1, RpcTimeout: 20, RpcRetries: 1, ShardSubdir: e.shardSub}, true)
+		n, err := drive.NewClusterNode(e.root(k), e.specs[k], servers, drive.ClusterOpts{MaxShardPointCount: 2, ShardTimeout: 1, RpcTimeout: 20, RpcRetries: 1, ShardSubdir: e.shardSub, RelativeDirs: e.relDirs}, true)
 		if err != nil {
 			return fmt.Errorf("node %d: %v", k, err)
 		}
@@ -305,6 +308,7 @@ func execCase(c Case) (res vt.Result) {
 		}
 	}
 	e.oddDirs = c.OddDirs
+	e.relDirs = c.RelDirs
 	for k := 0; k < c.Total; k++ {
 		host := drive.LoopbackHost(k + 1)
 		e.specs = append(e.specs, drive.NodeSpec{Host: host, Port: drive.FreePort(host)})
